@@ -106,7 +106,8 @@ func (p *Prog) ctxValue(v ssa.Value, ctx ssa.CallInstruction) ssa.Value {
 	if prm, ok := v.(*ssa.Parameter); ok {
 		idx := paramIndex(prm)
 		if sc := ctx.Common().StaticCallee(); sc == prm.Parent() && idx < len(ctx.Common().Args) {
-			return p.resolveDeep(ctx.Common().Args[idx])
+			// the actual may itself be a parameter of an extracted helper: follow it further up
+			return resolveUp(p.resolveDeep(ctx.Common().Args[idx]))
 		}
 	}
 	return v
